@@ -756,4 +756,241 @@ example : errOf (scanRules demo demoId (.dir .nil) [] {}) = some .projectNotExis
 example : At (.cons [114] (.dir (.cons aYml (.file [1]) .nil)) .nil) [[114], aYml] (.file [1]) := At.down At.here
 example : Listed (fun _ => false) [] [[114], aYml] := ⟨rfl, by decide, rfl, by decide⟩
 
+/-! ## 7. "none twice": one walk yields no path twice; non-overlapping `ruleDirs` load every file once -/
+
+mutual
+/-- the child names are pairwise distinct inside every directory of the tree (as in a real file
+    system); decidable: a `Bool` -/
+def Dir.uniqueNames : Dir → Bool
+  | .nil => true
+  | .cons n e rest => (rest.get n).isNone && e.uniqueNames && rest.uniqueNames
+def Entry.uniqueNames : Entry → Bool
+  | .file _ => true
+  | .dir d => d.uniqueNames
+end
+
+/-- `UniqueNames root`: no directory of the tree lists a name twice -/
+abbrev UniqueNames (root : Entry) : Prop := root.uniqueNames = true
+
+theorem Dir.get_uniqueNames : ∀ (d : Dir) (n : Name) (e : Entry),
+    d.uniqueNames = true → d.get n = some e → e.uniqueNames = true
+  | .nil, n, e, _, h => by simp [Dir.get] at h
+  | .cons m x rest, n, e, hu, h => by
+    simp only [Dir.uniqueNames, Bool.and_eq_true] at hu
+    simp only [Dir.get] at h
+    split at h
+    · cases h; exact hu.1.2
+    · exact Dir.get_uniqueNames rest n e hu.2 h
+
+theorem lookup_uniqueNames (p : Path) : ∀ (e e' : Entry),
+    e.uniqueNames = true → e.lookup p = some e' → e'.uniqueNames = true := by
+  induction p with
+  | nil => intro e e' hu h; simp only [Entry.lookup, Option.some.injEq] at h; exact h ▸ hu
+  | cons n rest ih =>
+    intro e e' hu h
+    cases e with
+    | file c => simp [Entry.lookup] at h
+    | dir d =>
+      simp only [Entry.lookup] at h
+      split at h
+      · rename_i x hx
+        exact ih x e' (Dir.get_uniqueNames d n x (by simpa [Entry.uniqueNames] using hu) hx) h
+      · cases h
+
+/-- the first component of a relative path below `d` is a child of `d` -/
+theorem At_head {d : Dir} {rel : List Name} {e : Entry} (h : At d rel e) :
+    ∃ m rel', rel = m :: rel' ∧ (d.get m).isSome = true := by
+  induction h with
+  | @here n e rest => exact ⟨n, [], rfl, by simp [Dir.get]⟩
+  | @down n d' rest rel e _ _ => exact ⟨n, rel, rfl, by simp [Dir.get]⟩
+  | @skip n x rest rel e _ ih =>
+    obtain ⟨m, rel', h1, h2⟩ := ih
+    refine ⟨m, rel', h1, ?_⟩
+    simp only [Dir.get]
+    split
+    · rfl
+    · exact h2
+
+theorem walkDir_path_head (ign : Path → Bool) (d : Dir) (pre p : Path) (c : Bytes)
+    (h : (p, c) ∈ walkDir ign pre d) :
+    ∃ m rel', p = pre ++ m :: rel' ∧ (d.get m).isSome = true := by
+  obtain ⟨rel, hp, ha, _⟩ := walkDir_sound ign d pre p c h
+  obtain ⟨m, rel', hr, hg⟩ := At_head ha
+  exact ⟨m, rel', by rw [hp, hr], hg⟩
+
+theorem walkEntry_path_head (ign : Path → Bool) (pre : Path) (n : Name) (e : Entry) (p : Path)
+    (c : Bytes) (h : (p, c) ∈ walkEntry ign (pre ++ [n]) n e) : ∃ rel', p = pre ++ n :: rel' := by
+  cases e with
+  | file c' =>
+    simp only [walkEntry] at h
+    split at h
+    · simp at h
+    · simp only [List.mem_singleton, Prod.mk.injEq] at h
+      exact ⟨[], h.1⟩
+  | dir d' =>
+    simp only [walkEntry] at h
+    split at h
+    · simp at h
+    · obtain ⟨rel, hp, _, _⟩ := walkDir_sound ign d' (pre ++ [n]) p c h
+      exact ⟨rel, by simp [hp]⟩
+
+/-- **walk_nodup.**  In a tree with unique names one walk yields no path twice. -/
+theorem walk_nodup (ign : Path → Bool) : ∀ (d : Dir) (pre : Path),
+    d.uniqueNames = true → ((walkDir ign pre d).map (·.1)).Nodup
+  | .nil, pre, _ => by simp [walkDir]
+  | .cons n e rest, pre, hu => by
+    simp only [Dir.uniqueNames, Bool.and_eq_true, Option.isNone_iff_eq_none] at hu
+    obtain ⟨⟨hn, he⟩, hr⟩ := hu
+    simp only [walkDir, List.map_append]
+    rw [List.nodup_append]
+    refine ⟨?_, walk_nodup ign rest pre hr, ?_⟩
+    · cases e with
+      | file c =>
+        simp only [walkEntry]
+        split <;> simp
+      | dir d' =>
+        simp only [walkEntry]
+        split
+        · simp
+        · exact walk_nodup ign d' (pre ++ [n]) (by simpa [Entry.uniqueNames] using he)
+    · intro a ha b hb hab
+      simp only [List.mem_map] at ha hb
+      obtain ⟨⟨pa, ca⟩, hma, rfl⟩ := ha
+      obtain ⟨⟨pb, cb⟩, hmb, rfl⟩ := hb
+      obtain ⟨rel', h1⟩ := walkEntry_path_head ign pre n e pa ca hma
+      obtain ⟨m, rel'', h2, hg⟩ := walkDir_path_head ign rest pre pb cb hmb
+      simp only at hab
+      rw [h1, h2] at hab
+      have := List.append_cancel_left hab
+      simp only [List.cons.injEq] at this
+      rw [← this.1, hn] at hg
+      cases hg
+
+/-- one `ruleDirs` / `utilDirs` entry: no path twice -/
+theorem walkRoot_nodup (ign : Path → Bool) (root : Entry) (base : Path) (fs : List (Path × Bytes))
+    (hu : UniqueNames root) (h : walkRoot ign base (root.lookup base) = .ok fs) :
+    (fs.map (·.1)).Nodup := by
+  cases hl : root.lookup base with
+  | none => rw [hl] at h; cases h
+  | some e =>
+    rw [hl] at h
+    cases e with
+    | file c => cases h; simp
+    | dir d =>
+      cases h
+      exact walk_nodup ign d base (by simpa [Entry.uniqueNames] using lookup_uniqueNames base root _ hu hl)
+
+theorem RuleFileOf_prefix {ign : Path → Bool} {root : Entry} {base p : Path} {c : Bytes}
+    (h : RuleFileOf ign root base p c) : base <+: p := by
+  rcases h with ⟨_, rfl⟩ | ⟨_, rel, _, rfl, _, _⟩
+  · exact List.prefix_refl _
+  · exact List.prefix_append _ _
+
+/-- the `ruleDirs` entries are pairwise non-overlapping: no entry is a prefix path of another
+    (in particular no entry occurs twice) -/
+def NonOverlapping (rds : List Path) : Prop :=
+  rds.Pairwise (fun a b => ¬ a <+: b ∧ ¬ b <+: a)
+
+instance (rds : List Path) : Decidable (NonOverlapping rds) := by
+  unfold NonOverlapping; infer_instance
+
+/-- with unique names and non-overlapping `ruleDirs`, the result of `read_directory_yaml` is the
+    concatenation of the documents of a list of rule files in which NO PATH OCCURS TWICE, and which holds
+    exactly the rule files of the entries -/
+theorem rules_files_once (P : Params D U G) (root : Entry) (dir : Path) (g : G) (rds : List Path)
+    (ds : List D) (hu : UniqueNames root) (hno : NonOverlapping rds)
+    (h : readDirs P root dir g rds = .ok ds) :
+    ∃ files : List (Path × Bytes),
+      (files.map (·.1)).Nodup ∧
+      (∀ p c, (p, c) ∈ files ↔ ∃ rd ∈ rds, RuleFileOf P.ign root (dir ++ rd) p c) ∧
+      ds = files.flatMap (docsOf P g) := by
+  induction rds generalizing ds with
+  | nil =>
+    simp only [readDirs, Except.ok.injEq] at h
+    subst h
+    exact ⟨[], by simp, by simp, rfl⟩
+  | cons rd rds ih =>
+    obtain ⟨fs, part, rest, hw, hl, hr, rfl⟩ := (readDirs_cons P root dir g rd rds ds).mp h
+    have hno' := List.pairwise_cons.mp hno
+    obtain ⟨files', hnd, hmem, rfl⟩ := ih rest hno'.2 hr
+    obtain ⟨_, rfl⟩ := (loadList_ok_iff P g fs part).mp hl
+    refine ⟨fs ++ files', ?_, ?_, by simp [List.flatMap_append]⟩
+    · rw [List.map_append, List.nodup_append]
+      refine ⟨walkRoot_nodup P.ign root (dir ++ rd) fs hu hw, hnd, ?_⟩
+      intro a ha b hb hab
+      simp only [List.mem_map] at ha hb
+      obtain ⟨⟨pa, ca⟩, hma, rfl⟩ := ha
+      obtain ⟨⟨pb, cb⟩, hmb, rfl⟩ := hb
+      simp only at hab
+      subst hab
+      have h1 := RuleFileOf_prefix ((walkRoot_mem P.ign root (dir ++ rd) fs hw pa ca).mp hma)
+      obtain ⟨rd', hrd', hf'⟩ := (hmem pa cb).mp hmb
+      have h2 := RuleFileOf_prefix hf'
+      rcases List.prefix_or_prefix_of_prefix h1 h2 with h3 | h3
+      · exact (hno'.1 rd' hrd').1 ((List.prefix_append_right_inj dir).mp h3)
+      · exact (hno'.1 rd' hrd').2 ((List.prefix_append_right_inj dir).mp h3)
+    · intro p c
+      simp only [List.mem_append, List.mem_cons, exists_eq_or_imp]
+      rw [walkRoot_mem P.ign root (dir ++ rd) fs hw p c, hmem p c]
+
+theorem length_filter_flatMap {α β} (q : β → Bool) (f : α → List β) (l : List α) :
+    ((l.flatMap f).filter q).length = (l.map (fun a => ((f a).filter q).length)).sum := by
+  induction l with
+  | nil => rfl
+  | cons a l ih => simp [List.flatMap_cons, List.filter_append, ih]
+
+/-- **rules_loaded_once** ("none twice").  In a tree with unique names, when no `ruleDirs` entry is a
+    prefix path of another, every rule FILE contributes its documents exactly once: there is a list of
+    files without repeated path — exactly the rule files of the entries — such that, for every property
+    `q` of documents (e.g. "is this document", "has this id"), the number of loaded documents with `q`
+    is the sum over these files of the number of documents with `q` in the file.
+    `loaded_twice_counterexample` shows that the non-overlap hypothesis is needed. -/
+theorem rules_loaded_once (P : Params D U G) (root : Entry) (dir : Path) (g : G) (rds : List Path)
+    (ds : List D) (hu : UniqueNames root) (hno : NonOverlapping rds)
+    (h : readDirs P root dir g rds = .ok ds) :
+    ∃ files : List (Path × Bytes),
+      (files.map (·.1)).Nodup ∧
+      (∀ p c, (p, c) ∈ files ↔ ∃ rd ∈ rds, RuleFileOf P.ign root (dir ++ rd) p c) ∧
+      ∀ q : D → Bool,
+        (ds.filter q).length = (files.map (fun f => ((docsOf P g f).filter q).length)).sum := by
+  obtain ⟨files, h1, h2, rfl⟩ := rules_files_once P root dir g rds ds hu hno h
+  exact ⟨files, h1, h2, fun q => length_filter_flatMap q _ files⟩
+
+/-- the multiplicity form: a document occurs in the result as often as it occurs in the rule files,
+    each file counted once -/
+theorem rules_loaded_once_count [BEq D] (P : Params D U G) (root : Entry) (dir : Path) (g : G)
+    (rds : List Path) (ds : List D) (hu : UniqueNames root) (hno : NonOverlapping rds)
+    (h : readDirs P root dir g rds = .ok ds) :
+    ∃ files : List (Path × Bytes),
+      (files.map (·.1)).Nodup ∧
+      (∀ p c, (p, c) ∈ files ↔ ∃ rd ∈ rds, RuleFileOf P.ign root (dir ++ rd) p c) ∧
+      ∀ x : D, ds.count x = (files.map (fun f => (docsOf P g f).count x)).sum := by
+  obtain ⟨files, h1, h2, h3⟩ := rules_loaded_once P root dir g rds ds hu hno h
+  refine ⟨files, h1, h2, fun x => ?_⟩
+  simp only [List.count_eq_countP, List.countP_eq_length_filter]
+  exact h3 _
+
+/-- the hypothesis of `rules_loaded_once` that `loaded_twice_counterexample` violates: `[r, r/a.yml]`
+    overlap (and the tree there has unique names) -/
+theorem loaded_twice_overlaps :
+    ¬ NonOverlapping [[[114]], [[114], aYml]] ∧
+    UniqueNames (Entry.dir (.cons [114] (.dir (.cons aYml (.file [7]) .nil)) .nil)) := by
+  constructor
+  · decide
+  · decide
+
+/-! ### non-vacuity of section 7 on the demo tree -/
+
+example : UniqueNames demoTree := by decide
+example : ¬ UniqueNames (.dir (.cons aYml (.file [1]) (.cons aYml (.file [2]) .nil))) := by decide
+example : NonOverlapping [[[114]], [[112]]] := by decide
+example : NonOverlapping [[[114], [115]], [[112]], [[117]]] := by decide
+example : ¬ NonOverlapping [[[114]], [[114], [115]]] := by decide
+/-- the rule directories `r` and `p` of the demo tree: four files walked, no path twice, five documents -/
+example : (okOf (readDirs demo demoTree [] [] [[[114]], [[112]]])) = some [1, 2, 3, 4, 0] := by decide
+example : ((walkDir demo.ign [] (match demoTree with | .dir d => d | _ => .nil)).map (·.1)).length = 5 := by decide
+/-- document `2` occurs once in the load of `[r]` and twice when `r/a.yml` is listed as well -/
+example : (okOf (readDirs demo demoTree [] [] [[[114]]])).map (·.count 2) = some 1 := by decide
+example : (okOf (readDirs demo demoTree [] [] [[[114]], [[114], aYml]])).map (·.count 2) = some 2 := by decide
+
 end AGV.Project
